@@ -323,7 +323,12 @@ def r_own(ck: Checker) -> None:
     pins = Pins.of(vals={f"{stm}.ast_type": ["ASTType.Rule", "ASTType.Minimize"]})
     itp = ck.interp(ec, pins)
     rets = {unparse(itp.expand(r.value, s)).replace(" ", "") for r, s in itp.returns}  # type: ignore[arg-type]
-    ck.add("preprocess gives every rule/objective a new body vector", rets == {f"{stm}.update(body=normalize_operators({stm}.body))"}, ec, ec.node, f"for Rule/Minimize returns {sorted(rets)}",
+    fresh_body = True
+    for r, s in itp.returns:
+        v = itp.expand(r.value, s) if r.value is not None else None
+        fresh_body = fresh_body and isinstance(v, ast.Call) and isinstance(v.func, ast.Attribute) and v.func.attr == "update" and unparse(v.func.value) == stm and not v.args \
+            and any(kw.arg == "body" and unparse(kw.value).replace(" ", "") == f"normalize_operators({stm}.body)" for kw in v.keywords)
+    ck.add("preprocess gives every rule/objective a new body vector", fresh_body and bool(rets), ec, ec.node, f"for Rule/Minimize returns {sorted(rets)}",
            "passes edit statement bodies in place (unused, minmax, sum); returning the statement itself for 'nothing to do' would make those edits hit the caller's statement")
     no = ck.func("normalize:normalize_operators")
     ito = ck.interp(no)
